@@ -114,7 +114,11 @@ impl<T: Qcow2IoOps> Qcow2Dev<T> {
                 log::warn!("add_l2_slice: cache eviction, slices {}", to_kill.len());
                 // figure exact dependency on refcount cache & reftable entries
                 self.flush_refcount().await?;
-                self.flush_cache_entries(to_kill).await
+                self.flush_cache_entries(to_kill).await?;
+
+                // the evicted slices are clean for everyone now, so the
+                // next l1 table flush won't order itself after them
+                self.call_fsync(0, usize::MAX, 0).await
             }
             _ => Ok(()),
         }
